@@ -176,7 +176,7 @@ func mkPlugin(version string) *fakes.PluginClient {
 
 func encEnv(limit int) string {
 	tg := []string{}
-	for _, t := range [][3]string{{"t1", "devicesim", "1.0.0"}, {"t2", "devicesim", "1.0.0"}, {"t3", "nomodel", "9.9"}} {
+	for _, t := range [][3]string{{"t1", "devicesim", "1.0.0"}, {"t2", "devicesim", "1.0.0"}, {"t3", "nomodel", "9.9"}, {"t4", "devicesim", "1.0.0"}} {
 		tg = append(tg, hx(t[0])+":"+hx(t[1])+":"+hx(t[2]))
 	}
 	pls := []string{}
@@ -516,7 +516,7 @@ func (r *runner) doMisc() {
 		dec := &adminapi.GetConfigurationRequest{}
 		cid := configapi.ConfigurationID(g.pick(hostileNames))
 		if g.chance(2) {
-			cid = configuration.NewID("t1", "devicesim", "1.0.0")
+			cid = configuration.NewID(configapi.TargetID(g.pick([]string{"t1", "t4"})), "devicesim", "1.0.0")
 		}
 		if !rt(&adminapi.GetConfigurationRequest{ConfigurationID: cid}, dec) {
 			return
@@ -532,7 +532,7 @@ func (r *runner) doMisc() {
 	default:
 		name = "watchcfg"
 		dec := &adminapi.WatchConfigurationsRequest{}
-		if !rt(&adminapi.WatchConfigurationsRequest{ConfigurationID: configapi.ConfigurationID(g.pick([]string{"", "x", "t1-devicesim-1.0.0"})), Noreplay: g.chance(2)}, dec) {
+		if !rt(&adminapi.WatchConfigurationsRequest{ConfigurationID: configapi.ConfigurationID(g.pick([]string{"", "x", "t1-devicesim-1.0.0", "t4-devicesim-1.0.0"})), Noreplay: g.chance(2)}, dec) {
 			return
 		}
 		f = func() error { return r.e.Admin.WatchConfigurations(dec, &cfgWatchStream{subStream{ctx: ctx}}) }
@@ -608,6 +608,18 @@ func (r *runner) one(kind int) {
 	}
 }
 
+// createEmptyConfiguration stores, through the real configuration store, the Configuration object of a target that
+// was discovered but never configured: it exists and holds no value (reads of it return Values == nil)
+func createEmptyConfiguration(e *env.Env, target string) {
+	err := e.Cfgs.Create(context.Background(), &configapi.Configuration{
+		ID:       configuration.NewID(configapi.TargetID(target), "devicesim", "1.0.0"),
+		TargetID: configapi.TargetID(target),
+	})
+	if err != nil {
+		panic(err)
+	}
+}
+
 func runChild(seed int64, n int, corpus string, limit int) {
 	env.Quiet()
 	os.Unsetenv("OIDC_SERVER_URL")
@@ -617,6 +629,8 @@ func runChild(seed int64, n int, corpus string, limit int) {
 	e.Topo.AddTarget("t1", "devicesim", "1.0.0", false, false)
 	e.Topo.AddTarget("t2", "devicesim", "1.0.0", true, false)
 	e.Topo.AddTarget("t3", "nomodel", "9.9", false, false)
+	e.Topo.AddTarget("t4", "devicesim", "1.0.0", false, false)
+	createEmptyConfiguration(e, "t4")
 	e.StartControllers(false)
 	rn := &runner{e: e, out: out, seed: seed, g: &gen{r: rand.New(rand.NewSource(seed))}}
 	fmt.Fprintf(out, "c12.env\t%s\t%s\n", rn.id(), encEnv(limit))
